@@ -50,6 +50,10 @@ func mangle(name string) string {
 }
 
 func (in *Interp) classify(fn *ssa.Function, fi *fnInfo) {
+	in.classify2(fn, fi, true)
+}
+
+func (in *Interp) classify2(fn *ssa.Function, fi *fnInfo, allowStub bool) {
 	name := fi.name
 	if fn.Pkg != nil && fn.Parent() == nil {
 		if api, ok := harnessAPI[fn.Name()]; ok && strings.HasPrefix(fn.Name(), "v") {
@@ -59,7 +63,7 @@ func (in *Interp) classify(fn *ssa.Function, fi *fnInfo) {
 		}
 	}
 	// harness-defined stub for an environment function?
-	if fn.Parent() == nil && !strings.HasPrefix(fn.Name(), "vStub_") {
+	if allowStub && fn.Parent() == nil && !strings.HasPrefix(fn.Name(), "vStub_") {
 		m := mangle(name)
 		for _, pkg := range in.prog.AllPackages() {
 			if !strings.HasPrefix(pkg.Pkg.Path(), elpsModule) {
@@ -68,7 +72,16 @@ func (in *Interp) classify(fn *ssa.Function, fi *fnInfo) {
 			if f := pkg.Func(m); f != nil {
 				fi.kind = 1
 				stub := f
+				var plain *fnInfo
 				fi.ext = func(fr *frame, args []value) value {
+					if fr.i.path != nil && fr.i.path.stubOff[name] {
+						// stub switched off by the harness: behave as if it did not exist
+						if plain == nil {
+							plain = &fnInfo{regs: fi.regs, nregs: fi.nregs, hash: fi.hash, ninst: fi.ninst, name: fi.name}
+							fr.i.classify2(fn, plain, false)
+						}
+						return fr.i.callWith(fr, fn, plain, args)
+					}
 					if fr.i.path != nil {
 						fr.i.noteStub(name)
 					}
@@ -107,6 +120,14 @@ func (in *Interp) classify(fn *ssa.Function, fi *fnInfo) {
 		return
 	}
 	fi.kind = 5
+}
+
+// callWith calls fn using an alternative classification.
+func (in *Interp) callWith(fr *frame, fn *ssa.Function, fi *fnInfo, args []value) value {
+	saved := in.fninfo[fn]
+	in.fninfo[fn] = fi
+	defer func() { in.fninfo[fn] = saved }()
+	return callSSA(in, fr.caller, token.NoPos, fn, args, nil)
 }
 
 // interpretBody runs fn's SSA body regardless of its external entry.
@@ -303,6 +324,14 @@ func init() {
 			return v
 		}
 		return args[1]
+	}
+	harnessAPI["vStubOff"] = func(fr *frame, args []value) value {
+		in := fr.i
+		if in.path.stubOff == nil {
+			in.path.stubOff = map[string]bool{}
+		}
+		in.path.stubOff[in.concStr(fr, args[0])] = args[1].(bool)
+		return nil
 	}
 	harnessAPI["vMapOrder"] = func(fr *frame, args []value) value {
 		fr.i.path.mapOrder = args[0].(bool)
